@@ -142,12 +142,8 @@ fn judge(ex: &mut Exec, c: &Case, cfg: &str, obs: &[(&'static str, Val)]) -> Res
                             return bad("coequalizer:not-surjective", got, "a surjection".into());
                         }
                         let rep = classes_of(&c.f, &c.g);
-                        for a in 0..n {
-                            for b in 0..n {
-                                if (q.0[a] == q.0[b]) != (rep[a] == rep[b]) {
-                                    return bad(if rep[a] == rep[b] { "coequalizer:does-not-identify-f(i)-with-g(i)" } else { "coequalizer:identifies-unrelated-elements" }, got, format!("elements {} and {} {} be identified", a, b, if rep[a] == rep[b] { "must" } else { "must not" }));
-                                }
-                            }
+                        if let Err((a, b, together_in_q)) = crate::plain::same_partition(&q.0, &rep) {
+                            return bad(if together_in_q { "coequalizer:identifies-unrelated-elements" } else { "coequalizer:does-not-identify-f(i)-with-g(i)" }, got, format!("elements {} and {} {} be identified", a, b, if together_in_q { "must not" } else { "must" }));
                         }
                         coeq = Some(q.clone());
                         ex.probe("coequalizers_checked");
@@ -369,7 +365,15 @@ impl Check for C06 {
         ex.nontrivial = !c.f.0.is_empty() || !c.q.0.is_empty();
         // the workload must respect the harness's own preconditions (tables within codomains, q surjective)
         let ok_fun = |f: &Fun| f.0.iter().all(|v| *v < f.1);
-        let surj = (0..c.q.1).all(|k| c.q.0.contains(&k));
+        let surj = {
+            let mut hit = vec![false; c.q.1];
+            for v in &c.q.0 {
+                if *v < c.q.1 {
+                    hit[*v] = true;
+                }
+            }
+            hit.iter().all(|h| *h)
+        };
         if ![&c.f, &c.g, &c.q, &c.h, &c.p, &c.r, &c.sizes, &c.idx].iter().all(|f| ok_fun(f)) || !surj || c.h.0.len() > 0 && c.h.1 == 0 {
             return Ok(());
         }
@@ -447,6 +451,33 @@ impl Check for C06 {
             }
         }
         out
+    }
+    fn stress(tier: Tier) -> Vec<Case> {
+        // very long identification chains / stars: recursion depth and size thresholds
+        let n = if tier == Tier::Thorough { 1_000_000 } else { 300_000 };
+        let base = |f: Vec<usize>, g: Vec<usize>| Case {
+            f: (f, n),
+            g: (g, n),
+            q: ((0..n).collect(), n),
+            labels: vec![7; n],
+            h: (vec![0; n], 1),
+            p: (vec![], 0),
+            r: (vec![], 0),
+            sizes: (vec![], 1),
+            idx: (vec![], 0),
+            a: 0,
+            b: 0,
+            x: 0,
+            schedules: 1,
+        };
+        let mut r = Rng::new(0x57E55);
+        vec![
+            base((1..n).collect(), (0..n - 1).collect()),             // ascending chain
+            base((0..n - 1).collect(), (1..n).collect()),             // the same chain, pairs the other way round
+            base((1..n).rev().collect(), (0..n - 1).rev().collect()), // descending order
+            base((1..n).collect(), vec![0; n - 1]),                   // star
+            base((0..n).map(|_| r.below(n)).collect(), (0..n).map(|_| r.below(n)).collect()), // random graph
+        ]
     }
     fn rule() -> &'static str {
         "Each run draws: a pair (f,g) into a codomain of 0-8(10) elements with tables of length 0-12(16) (parallel in 10/12 of the runs, else differing in codomain or length; 1/5 chained so that long chains collapse), a surjection q (random, or the reference quotient of (f,g)), a label array and a finite function on q's domain that are constant on q's fibres and then, in half of the runs, damaged (one entry changed, wrong length), and general functions / sizes / index maps / small integers for the control clauses. On sim/control, vec and 1-4 perturbed schedules: coequalizer must be defined iff parallel and be a surjection whose fibres are exactly the classes generated by f(i) ~ g(i) (partition equality with a reference union-find, so 'merges too much' is caught); the universal map through q (given, or the coequalizer just computed) must be Some(u) with q;u = f iff f has q's domain as domain and is constant on fibres, None otherwise; control clauses (compose, compose with label arrays, identity, initial, terminal, constant, inj0/1, inject0/1, coproduct, tensor, twist, transpose, cumulative_sum, injections, is_injective, operator sugar) must equal their meaning on functions-as-Vec. Non-trivial iff f or q has a non-empty table; distinct = distinct (workload fingerprint, device decision fingerprint)."
